@@ -39,6 +39,13 @@ def streams(rng, tier):
             k = rng.random()
             w = rng.choice(gen.neighbours_wide(rng, v)) if k < 0.6 else gen.rand_v_wide(rng) if k < 0.8 else gen.rand_v(rng)
             out.append(Case("law-canon", "law.v.canon", [s, gen.spell_wide(rng, w)], kind="law"))
+    # digits that str.isdigit()/int() accept but the (?a:) pattern does not: such strings are non-versions and must pass through unchanged
+    for _ in range(300 if q else 6000):
+        s = gen.spell(rng, gen.rand_v(rng, local_p=0.15), ws=rng.random() < 0.3, vprefix=rng.random() < 0.3)
+        pos = [i for i, ch in enumerate(s) if ch.isdigit()]
+        i = rng.choice(pos)
+        s = s[:i] + rng.choice(["\u0661", "\uff11", "\u00b2", "\u0967", "\u2460", "\U0001d7d9"]) + s[i + 1:]
+        out.append(Case("digit-confusable", "v.parse", [s])); out.append(Case("digit-confusable", "v.canon", [rng.choice("TF"), s]))
     for c in gen.WS_ALL:
         for s in [c + "1.0", "1.0" + c, c + "v1.0rc1" + c, "1" + c + "0", "1.0" + c + "a1", c]:
             out.append(Case("ws-all", "v.parse", [s])); out.append(Case("ws-all", "v.canon", ["T", s]))
